@@ -30,5 +30,10 @@ Proof. reflexivity. Qed.
 Lemma gen_validator_ok : VC gen_vc_lens gen_vc_bounds_all gen_vc_sorted = VC true true true.
 Proof. reflexivity. Qed.
 
+(* validate_block_request tests the order of the range and counts the blocks without wrapping *)
+Lemma gen_block_request_ok : gen_block_order_checked = true /\
+  forall f t, f < W64 -> t < W64 -> f <= t -> gen_block_count f t = N.min ((t - f) + 1) (W64 - 1).
+Proof. split; [reflexivity|]. intros f t Hf Ht Hle. unfold gen_block_count, W64 in *. lia. Qed.
+
 Lemma gen_flags_ok : gen_flag_none = 0 /\ gen_flag_lz4 = 1 /\ gen_max_decompressed < W32.
 Proof. repeat split. Qed.
